@@ -28,7 +28,7 @@ class SemiCylinder(RoundSolidShape):
         axis = np.asarray(axis_point_2) - axis_point_1
         radius_point_1 = np.asarray(radius_point_1)
 
-        diff = np.dot(axis, radius_point_1 - axis_point_1)
+        diff = abs(np.dot(axis, radius_point_1 - axis_point_1))
         if diff > TOL:
             raise CylinderCreationError(
                 "Axis and radius vectors are not perpendicular", f"Difference: {diff}, tolerance: {TOL}"
